@@ -61,7 +61,17 @@ C02(rec) ==
           LET si == SigIndex(sig, times[j]) IN
           IF si = 0 THEN Chk(~Visible(rec.obs[j]), rec.id, times[j], "c02_content_before_first_sig_time")
           ELSE IF sig[si] \notin Range(times) THEN TRUE
-          ELSE Chk(Strip(rec.obs[j]) = Strip(rec.obs[TimeIndex(times, sig[si])]), rec.id, times[j], "c02_change_between_sig_times")
+          ELSE IF Strip(rec.obs[j]) = Strip(rec.obs[TimeIndex(times, sig[si])]) THEN TRUE
+          ELSE \* a change that the reported times do not announce.  rec.own (from the document alone) lists the boundaries of
+               \* animation steps resolved against the carrying element's OWN interval where that differs from the resolution
+               \* against its parent's: if the snapshot is the one taken at the latest of those - i.e. the change is exactly
+               \* such a boundary - the case has the shape of the recorded finding and is named after it; any other
+               \* unannounced change is not.
+               LET own == IF "own" \in DOMAIN rec THEN {x \in Range(rec.own) : sig[si] < x /\ x <= times[j]} ELSE {}
+                   last == IF own = {} THEN 0 ELSE CHOOSE x \in own : \A y \in own : y <= x
+               IN  IF own # {} /\ (last \notin Range(times) \/ Strip(rec.obs[j]) = Strip(rec.obs[TimeIndex(times, last)]))
+                   THEN Fail(rec.id, times[j], "c02_change_at_step_boundary_resolved_against_own_interval")
+                   ELSE Fail(rec.id, times[j], "c02_change_between_sig_times")
      /\ Chk(rec.seqt = sig, rec.id, 0, "c02_sequence_times")
      /\ \A k \in 1..Len(rec.seqt) :
           IF k > Len(sig) \/ sig[k] \notin Range(times) THEN TRUE
